@@ -61,9 +61,9 @@ def run(run, args):
     run.oblige("shape and request resolution hold on every implementation output outside the listed known findings", not fails, "")
     run.oblige("signal-fraction request = fixed request for the Poisson estimate", not pres[0], "")
     # the reusable generator object (one instance alive through the whole run) must answer every request as the free function does
-    gen_diff = [r["id"] for r in recs if "gen_out" in r and r["gen_out"] != r["out"]]
+    gen_diff = [r["id"] for r in recs if ("gen_out" in r and r["gen_out"] != r["out"]) or ("gen2_out" in r and r["gen2_out"] != r["out"])]
     run.cov["generator_entry_point"] = {"requests_through_one_long_lived_generator": sum(1 for r in recs if "gen_out" in r), "differing": len(gen_diff)}
-    run.oblige("the long-lived generator object returns the free function's pattern for every request of the run (bit for bit)", not gen_diff,
+    run.oblige("the long-lived generator object and the per-composition generator object return the free function's pattern for every request of the run (bit for bit)", not gen_diff,
                "%d differ" % len(gen_diff))
     broken = standard_proof_obligations(run, "C09", THEOREMS) if THEOREMS else []
     broken += standard_proof_obligations(run, "C09b", ["C09_center_bounds", "C09_center_between", "C09_element_sandwich", "C09_table_sane"])
